@@ -238,6 +238,40 @@ fn durable_op(req: &Value) -> Value {
     json!({"key": key, "put_ok": put_ok, "delete_ok": del_ok, "records": kinds, "records_after_put": n_after_put})
 }
 
+/// P1: acknowledged writes, optional restart (recover), checkpoint, restart: every acknowledged key must still be there.
+/// With "save_fails" the snapshot path is unusable: the checkpoint must fail and leave the log alone.
+fn durable_checkpoint(req: &Value) -> Value {
+    use tensor_store::{TensorData, TensorStore, TensorValue, ScalarValue};
+    let dir = tmpdir();
+    let path = dir.join("store.wal");
+    let snap = dir.join("store.snap");
+    let cfg = WalConfig::default();
+    let val = |i: i64| { let mut d = TensorData::new(); d.set("v", TensorValue::Scalar(ScalarValue::Int(i))); d };
+    let n = req["records"].as_u64().unwrap_or(1);
+    let mut acked: Vec<String> = vec![];
+    let mut store = match TensorStore::open_durable(&path, cfg.clone()) { Ok(s) => s, Err(e) => return json!({"error": e.to_string()}) };
+    if req["snapshot_exists"].as_bool().unwrap_or(false) {
+        if store.put_durable("old", val(0)).is_ok() { acked.push("old".into()); }
+        if let Err(e) = store.checkpoint(&snap) { return json!({"error": format!("first checkpoint: {e}")}); }
+    }
+    for i in 0..n {
+        let k = format!("key{i}");
+        if store.put_durable(k.clone(), val(i as i64 + 1)).is_ok() { acked.push(k); }
+    }
+    if req["inherited"].as_bool().unwrap_or(false) {
+        drop(store);
+        store = match TensorStore::recover(&path, &cfg, Some(&snap)) { Ok(s) => s, Err(e) => return json!({"error": format!("recover: {e}")}) };
+    }
+    let target = if req["save_fails"].as_bool().unwrap_or(false) { dir.join("no-such-dir").join("x.snap") } else { snap.clone() };
+    let cp = store.checkpoint(&target);
+    drop(store);
+    let rec = TensorStore::recover(&path, &cfg, Some(&snap));
+    let missing: Vec<String> = match &rec { Ok(s) => acked.iter().filter(|k| s.get(k).is_err()).cloned().collect(), Err(_) => acked.clone() };
+    let _ = std::fs::remove_dir_all(&dir);
+    json!({"acknowledged": acked, "checkpoint_ok": cp.is_ok(), "missing_after_restart": missing, "recover_error": rec.err().map(|e| e.to_string()),
+           "violates": !missing.is_empty()})
+}
+
 /// W5: r1, cut inside it, reopen, append r2, cut inside it, reopen, append r3, restart; which records the final replay has.
 macro_rules! double_crash {
     ($name:ident, $open:expr, $rec:expr) => {
@@ -280,6 +314,7 @@ double_crash!(tensor_double, |p: &std::path::Path| TensorWal::open(p, WalConfig:
 pub fn handle(op: &str, req: &Value) -> Option<Value> {
     Some(match op {
         "durable_op" => durable_op(req),
+        "durable_checkpoint" => durable_checkpoint(req),
         "durable_rotation" => {
             // acknowledged puts across a log rotation (no checkpoint), then recovery from the log alone
             use tensor_store::{TensorData, TensorStore, TensorValue, ScalarValue};
